@@ -17,7 +17,7 @@ RULE = ("cases: (rt) make_cookie_content -> parse_cookie for value/type strings 
         "non-trivial: the cookie differs from a genuine one or the payload contains a separator")
 MODELLED = "modelled: CookieHandler._sign_enc_payload, _ver_dec_content, make_cookie_content (value), parse_cookie; HMAC/AES-GCM/Fernet/base64 are parameters (tables)"
 ASSUMPTIONS = ["INT-CTXT of AES-GCM and Fernet, unforgeability of HMAC (hypotheses of the unique-parse theorem)",
-               "client-side idpyoidc.client.cookie is not modelled"]
+               "http.cookies.SimpleCookie (header quoting / unquoting around the relying-party module's value) is at the interface"]
 
 SIGN = "ghsNKDDLshZTPn974nOsIGhedULrsqnsGoBFBLwUKuJhE2ch"
 ENC = "NXi6HD473d_YS4exVRn7z9z23mGmvU64"
@@ -84,7 +84,103 @@ def cases(rng, tier):
         if rng.random() < 0.5:
             parts[0] = str(rng.randint(10**8, 2 * 10**9))
         out.append({"t": "forge", "mode": rng.choice(MODES), "cookie": "|".join(parts), "g": []})
+    # ---- the relying-party side cookie module the anchors name (idpyoidc.client.cookie: make_cookie / parse_cookie / cookie_signature)
+    CL = ["bjmc::1463043535::upm", "hello", "", "a b", "x|y", "é中", "{\"a\": 1}", "v;w", "q,\"r\"", "tail1", "7"]
+    for _ in range(120 * n):
+        out.append({"t": "crt", "mode": rng.choice(["csigned", "cenc"]), "load": rng.choice(CL) if rng.random() < 0.7 else common.rnd_text(rng, 9),
+                    "ts": str(rng.choice([rng.randint(1, 99), rng.randint(10**8, 10**9 - 1), rng.randint(10**9, 2 * 10**9)]))})
+    for _ in range(250 * n):
+        mode = rng.choice(["csigned", "cenc"])
+        g = [{"load": rng.choice(["hello", "bjmc::1463043535::upm", "diana1", "x9"]), "ts": str(rng.randint(10**9, 2 * 10**9))} for _ in range(2)]
+        out.append({"t": "cmut", "mode": mode, "g": g, "mut": [rng.choice([0, 1, 2, 3, 4, 5, 6, 7, 8, 11, 12, 13]), rng.randint(0, 10**6), rng.randint(0, 10**6)]})
+    for _ in range(80 * n):
+        k = rng.choice([1, 2, 3, 3, 3, 4, 4, 5])
+        parts = [rng.choice(frag + ["da39a3ee5e6b4b0d3255bfef95601890afd80709"]) for _ in range(k)]
+        out.append({"t": "cforge", "mode": rng.choice(["csigned", "cenc"]), "cookie": "|".join(parts), "g": []})
     return out
+
+
+# ---------------------------------------------------------------------------------------------- idpyoidc.client.cookie
+CSEED, CENC, CNAME = b"seed-of-the-relying-party-0123456789", b"encryption-key-of-the-rp-9876543210", "pyoidc"
+
+
+def _c_value(kaka):
+    """the value the cookie header carries for CNAME, as http.cookies reads it (interface)"""
+    from http.cookies import SimpleCookie
+    m = SimpleCookie(kaka).get(CNAME)
+    return None if m is None else m.value
+
+
+def _c_header(value):
+    from http.cookies import SimpleCookie
+    c = SimpleCookie()
+    c[CNAME] = value
+    return c.output(header="").strip()
+
+
+def _c_genuine(mode, g):
+    from idpyoidc.client import cookie as cc
+    hdr = cc.make_cookie(CNAME, g["load"], CSEED, timestamp=g["ts"], enc_key=CENC if mode == "cenc" else None)
+    return _c_value(hdr[1])
+
+
+def _c_mutate(c, cookies):
+    kind = c["mut"][0]
+    s = cookies[0]
+    P = s.split("|")
+    if kind == 12 and len(P) == 3 and P[0]:      # last character of the load to the front of the timestamp
+        P[0], P[1] = P[0][:-1], P[0][-1:] + P[1]
+        return "|".join(P)
+    if kind == 13 and len(P) == 3 and P[1]:      # first digit of the timestamp to the end of the load
+        P[0], P[1] = P[0] + P[1][:1], P[1][1:]
+        return "|".join(P)
+    return mutate(c, cookies)
+
+
+def _c_impl(c):
+    from idpyoidc.client import cookie as cc
+    if c["t"] == "cforge":
+        value = c["cookie"]
+    elif c["t"] == "crt":
+        value = _c_genuine(c["mode"], c)
+    else:
+        value = _c_mutate(c, [_c_genuine(c["mode"], g) for g in c["g"]])
+    try:
+        kaka = _c_header(value)
+        seen = _c_value(kaka)
+    except Exception:
+        return {"cookie": value, "parsed": "rejected", "seen": None}
+    try:
+        r = cc.parse_cookie(CNAME, CSEED, kaka, enc_key=CENC)
+    except Exception:
+        r = None
+    return {"cookie": value, "seen": seen, "parsed": "rejected" if not r else [r[0], r[1]]}
+
+
+def _c_tables(c, obs):
+    from idpyoidc.client import cookie as cc
+    parts = (obs["seen"] or "").split("|")
+    macT, b64T, aeadT = [], [], []
+    msgs = set()
+    for g in ([c] if c["t"] == "crt" else c["g"]):
+        msgs.add(g["load"] + g["ts"])
+    if len(parts) == 3:
+        msgs.add(parts[0] + parts[1])
+    for m in sorted(msgs):
+        macT += [m, pyhmac.new(CSEED, m.encode("utf-8"), hashlib.sha1).hexdigest()]      # own rendering of cookie_signature
+    if len(parts) == 4:
+        for p_ in parts[1:]:
+            d = _b64(p_, True)
+            if d is not None:
+                b64T += [p_, d]
+        try:
+            iv, ct, tag = (base64.b64decode(parts[i]) for i in (1, 2, 3))
+            key = hashlib.sha256(CENC + CSEED).digest()
+            pt = AESGCM(key).decrypt(iv, ct + tag, parts[0].encode("utf-8")).decode("utf-8")
+            aeadT += [hx(iv), hx(ct), hx(tag), parts[0], pt]
+        except Exception:
+            pass
+    return macT, b64T, aeadT
 
 
 def _genuine(mode, g):
@@ -152,6 +248,8 @@ def _parse(mode, cookie):
 
 
 def impl(c):
+    if c["t"] in ("crt", "cmut", "cforge"):
+        return _c_impl(c)
     cookie = _cookie_for(c)
     return {"cookie": cookie, "parsed": _parse(c["mode"], cookie)}
 
@@ -216,6 +314,11 @@ def tables(c, cookie):
 
 
 def model_lines(c, obs):
+    if c["t"] in ("crt", "cmut", "cforge"):
+        if obs["seen"] is None:
+            return []
+        macT, b64T, aeadT = _c_tables(c, obs)
+        return ["\t".join(["cookie", "clientparse", enc_str(obs["seen"]), enc_list(macT), enc_list(b64T), enc_list(aeadT)])]
     # the cookie embeds random IVs: the model must see the very string the implementation parsed
     cookie = obs["cookie"]
     macT, b64T, aeadT, fernetT = tables(c, cookie)
@@ -223,6 +326,8 @@ def model_lines(c, obs):
 
 
 def compare(c, obs, outs):
+    if not outs:
+        return [] if obs["parsed"] == "rejected" else [f"no cookie of that name in the header but the parser answered {obs['parsed']!r}"]
     o = outs[0]
     if o == "rejected":
         m = "rejected"
@@ -235,6 +340,18 @@ def compare(c, obs, outs):
 
 def oracle(c, obs):
     v = []
+    if c["t"] in ("crt", "cmut", "cforge"):
+        if c["t"] == "crt":
+            if obs["parsed"] != [c["load"], c["ts"]]:
+                v.append({"cls": "rt-separator" if (c["mode"] == "csigned" and "|" in c["load"]) else "rt", "mode": c["mode"]})
+        elif obs["parsed"] != "rejected":
+            gen = [[g["load"], g["ts"]] for g in c["g"]]
+            if obs["parsed"] not in gen:
+                cls = "forged-content"
+                if c["mode"] == "csigned" and any(obs["parsed"][0] + obs["parsed"][1] == g["load"] + g["ts"] for g in c["g"]):
+                    cls = "boundary-shift"
+                v.append({"cls": cls, "mode": c["mode"]})
+        return v
     if c["t"] == "rt":
         if c["v"] == "" and c["typ"] == "":
             return v          # make_cookie_content produces an empty (deleting) cookie by design
@@ -274,6 +391,8 @@ def classify(c, obs):
 
 
 def nontrivial(c, obs):
+    if c["t"] in ("crt", "cmut", "cforge"):
+        return c["t"] != "crt" or any(ch in c["load"] for ch in ":| ;,\"")
     if c["t"] == "rt":
         return any(ch in c["v"] + c["typ"] for ch in ":| ") or obs["parsed"] != "rejected"
     return c["t"] == "forge" or c["mut"][0] != 11
